@@ -116,7 +116,7 @@ def run_snap(kind: str, is_async: bool, a0: int, b0: int, s0: int, d1: int, b1: 
 # ---------------------------------------------------------------------------------------------
 # misuse, rejected at definition time
 # ---------------------------------------------------------------------------------------------
-N_MISUSE = 9
+N_MISUSE = 10
 
 
 def run_misuse(m: int, k: int) -> Tuple[bool, bool]:
@@ -193,6 +193,23 @@ def _misuse(m: int, k: int) -> Tuple[bool, bool]:
                     return None
             Good().m([1, 2])
             return True, False
+        if m == 9:  # two bases contribute different snapshots with the same name to an overriding member
+            class P1(icontract.DBC):
+                @icontract.snapshot(lambda xs: xs[:], name="n")
+                @icontract.ensure(lambda result: True)
+                def m(self, xs: List[int]) -> None:
+                    return None
+
+            class P2(icontract.DBC):
+                @icontract.snapshot(lambda xs: len(xs), name="n")
+                @icontract.ensure(lambda result: True)
+                def m(self, xs: List[int]) -> None:
+                    return None
+
+            class Both(P1, P2):
+                def m(self, xs: List[int]) -> None:
+                    return None
+            return False, False
         if m == 8:  # reading a name that was never captured
             seen = []  # type: List[str]
 
@@ -209,7 +226,7 @@ def _misuse(m: int, k: int) -> Tuple[bool, bool]:
                 drive(r)
             return len(seen) == 1 and "missing" in seen[0], True
     except ValueError:
-        return m in (0, 1, 2, 3, 4, 5), True
+        return m in (0, 1, 2, 3, 4, 5, 9), True
     return False, False
 
 
